@@ -1,5 +1,8 @@
+mod check;
 mod explore;
 mod h;
+mod json;
+mod props;
 mod scenarios;
 
 use explore::*;
@@ -46,6 +49,14 @@ fn main() {
         Some("worker") => worker_main(&args[1..]),
         Some("replay1") => replay1_main(&args[1..]),
         Some("explore") => dev_explore(&args[1..]),
+        Some("check") => std::process::exit(check::check_main(&args[1..], &exe())),
+        Some("replay") => std::process::exit(check::replay_main(&args[1], &exe())),
+        Some("plan") => {
+            for p in props::ALL_PROPS {
+                let pl = props::plan(p);
+                println!("{}: {} instances ({} in quick)", p, pl.len(), pl.iter().filter(|i| i.quick.is_some()).count());
+            }
+        }
         Some("list") => {
             for (n, _) in scenarios::all() {
                 println!("{}", n);
